@@ -187,6 +187,8 @@ def _first_byte_heuristic(raw, entry):
     """Predicate of finding C18-script-whole-blob-heuristic: Script.parse* treats the *whole* input as
     one bare signature / key / 64-byte blob depending on first byte and total length."""
     n = len(raw)
+    if entry == 'parse_stream':
+        return False            # (no length is known there, the heuristic has nothing to go by)
     if n == 64:
         return True
     if raw[:1] == b'\x30' and 69 <= n <= 74:
@@ -271,6 +273,15 @@ def check_script(ctx, case):
             return scr.Script.parse_hex(raw.hex(), strict=strict)
         if entry == 'parse_bytesio':
             return scr.Script.parse_bytesio(io.BytesIO(raw), data_length=len(raw), strict=strict)
+        if entry == 'parse_stream':
+            # Script.parse documents bytes, hex text or a stream; a stream comes without a length
+            return scr.Script.parse(io.BytesIO(raw), strict=strict)
+        if entry == 'parse_bytesio_offset':
+            # the script follows other data in the stream; the reader stands at its first byte
+            pre = bytes([0xaa, 0x51, 0x00][:1 + len(raw) % 3])
+            stream = io.BytesIO(pre + raw)
+            stream.read(len(pre))
+            return scr.Script.parse_bytesio(stream, data_length=len(raw), strict=strict)
         return scr.Script.parse_bytes(raw, strict=strict)
 
     datas = [it for it in items if not isinstance(it, int)]
@@ -346,6 +357,11 @@ def check_script(ctx, case):
                  case, kf=kf_for(raised=True))
         return
     cmds = list(s.commands)
+    # (read before serialize(), which refreshes what as_bytes() reports)
+    try:
+        own = bytes(s.as_bytes())
+    except Exception as e:
+        own = e
     try:
         ser = s.serialize()
     except Exception as e:
@@ -359,6 +375,13 @@ def check_script(ctx, case):
     if cmds != expected:
         ctx.disc('script.roundtrip.items', '%s: commands=%r want %r' % (entry, cmds[:8], expected[:8]), case,
                  kf=kf_for(cmds))
+        return
+    # the bytes the parsed object reports as its own are the script's bytes (as given, or in minimal form)
+    if isinstance(own, Exception):
+        raise Discrepancy('script.as_bytes.raises', '%s: as_bytes() raised %r' % (entry, own), case)
+    if own != raw and own != minimal:
+        raise Discrepancy('script.as_bytes', '%s: as_bytes()=%s after parsing %s' % (entry, own.hex()[:200],
+                                                                                      raw.hex()[:200]), case)
 
 
 def check_script_build(ctx, case):
@@ -404,11 +427,15 @@ def script_strategy(ctx):
     items_classified = st.lists(st.one_of(opc, opc, data_of(classified), data_of(classified), keyish()),
                                 min_size=1, max_size=max_items)
     items_any = st.lists(st.one_of(opc, opc, data_of(anylen)), min_size=1, max_size=max_items)
-    items = st.one_of(items_classified, items_classified, items_classified, items_any)
+    # scripts whose first byte is one the parser's whole-input shortcuts look at (30 = push of 48 bytes, 02 / 03 / 04 =
+    # pushes of 2 / 3 / 4 bytes), whatever the total length
+    first = st.tuples(data_of(st.sampled_from([48, 48, 2, 3, 4])), items_classified).map(lambda t: [t[0]] + t[1][:6])
+    items = st.one_of(items_classified, items_classified, items_classified, items_any, first)
     return st.fixed_dictionaries({
         'kind': st.just('script'),
         'items': items,
-        'entry': st.sampled_from(['parse', 'parse_bytes', 'parse_hex', 'parse_bytesio', 'parse_str_hex']),
+        'entry': st.sampled_from(['parse', 'parse_bytes', 'parse_hex', 'parse_bytesio', 'parse_str_hex', 'parse_stream',
+                                  'parse_bytesio_offset']),
         'strict': st.booleans(),
         'enc': st.one_of(st.none(), st.none(), st.lists(st.sampled_from([0, 1, 2, 4]), min_size=1, max_size=4)),
         'enc0': st.sampled_from([None, None, None, 1, 2, 4]),
